@@ -496,7 +496,7 @@ func (x *Exprer) mkField(name string, v ssa.Value, base *Expr) *Expr {
 	}
 	if base.Op == "call" {
 		if cv, ok := base.Val.(*ssa.Call); ok {
-			if fn := x.P.resolveCallee(&cv.Call); fn != nil && inTeleport(fn) && len(fn.Blocks) == 1 {
+			if fn := x.P.resolveCallee(&cv.Call); fn != nil && inTeleport(fn) && len(fn.Blocks) >= 1 && len(fn.Blocks) <= 8 {
 				if rets := x.P.RetExprs(fn, 0); len(rets) == 1 && rets[0].Op == "lit" {
 					for _, kv := range rets[0].Args {
 						if kv.Op == "kv" && kv.Name == name {
@@ -1129,7 +1129,7 @@ func (p *Program) trivialGetter(fn *ssa.Function) bool {
 	}
 	ok := len(fn.Blocks) == 1 && fn.Signature.Results().Len() == 1 && len(fn.FreeVars) == 0 && !isGeneratedFn(p, fn) && !keepOpaqueGetter[fn.Name()]
 	external := !inTeleport(fn) // a dependency's getter: only plain field paths and conversions (no calls at all)
-	ncalls := 0
+	ncalls, nin := 0, 0
 	if ok {
 		for _, ins := range fn.Blocks[0].Instrs {
 			switch t := ins.(type) {
@@ -1147,13 +1147,23 @@ func (p *Program) trivialGetter(fn *ssa.Function) bool {
 				}
 			case *ssa.Call:
 				callee := t.Call.StaticCallee()
-				ncalls++
-				if t.Call.IsInvoke() || callee == nil || inTeleport(callee) || ncalls > 1 || external {
-					ok = false // at most one conversion-like call on field values (no store access chains)
+				if t.Call.IsInvoke() || callee == nil || external {
+					ok = false
+					break
+				}
+				if inTeleport(callee) {
+					nin++ // delegation to other functions of the repository (h.ToEthHeader().Hash())
+				} else {
+					ncalls++ // at most one conversion-like call into a dependency (no store access chains)
+				}
+				if ncalls > 1 || nin > 3 {
+					ok = false
 				}
 				for _, a := range t.Call.Args {
 					if _, isPtr := a.Type().Underlying().(*types.Pointer); isPtr {
-						ok = false // may write through the pointer
+						if _, fresh := a.(*ssa.Call); !fresh {
+							ok = false // may write through the pointer (a pointer just returned by a call is fine)
+						}
 					}
 				}
 				if refs := t.Referrers(); refs == nil || len(*refs) == 0 {
